@@ -42,6 +42,19 @@ theorem inv_api {s s' : State} (h : Inv s) (hcore : Core s')
       · exact absurd ⟨hp, hr⟩ hx
       · exact Or.inr ⟨hp, Or.inr ⟨hr, hx id h3⟩⟩
 
+/-- a change of fields the invariant does not look at -/
+theorem inv_congr {s s' : State} (h : Inv s)
+    (e1 : s'.inLoopQ = s.inLoopQ) (e2 : s'.nextQ = s.nextQ) (e3 : s'.tmpQ = s.tmpQ) (e4 : s'.dQ = s.dQ)
+    (e5 : s'.efd.isSome = s.efd.isSome) (e6 : s'.inAlloc = s.inAlloc) (e7 : s'.nextAlloc = s.nextAlloc)
+    (e8 : s'.phase = s.phase) (e9 : s'.cur = s.cur) (e10 : s'.remain = s.remain) (e11 : s'.destroying = s.destroying)
+    (e12 : s'.loopTid = s.loopTid) (e13 : s'.executed = s.executed) (e14 : s'.cancelled = s.cancelled)
+    (e15 : s'.exitPending = s.exitPending) (e16 : s'.log = s.log) : Inv s' := by
+  have hl : line s' = line s := by rw [line_def, line_def, e13, e3, e4, e2, e1]
+  refine inv_api h (core_same h hl e14 e6 e7) (by rw [e6, e7]; exact h.allocPar) (by rw [e1]; exact h.parIn)
+    (by rw [e2]; exact h.parNext) e8 (fun e => by rw [e3]; exact e) e9 e4 e10 e11 e5 e12 e13 e15 (by rw [e16]) (by rw [e16])
+    (by rw [e16]) (by rw [e16, e14]; exact h.logCanc) (Or.inr ?_)
+  intro id hid; rw [e2, e1]; exact hid
+
 /-- `runInLoop` from anywhere -/
 theorem submitInLoop_inv (s : State) (tid : Nat) (body : List Act) (h : Inv s) :
     Inv (submitInLoop s tid body) := by
@@ -73,18 +86,18 @@ theorem submitNext_inv (s : State) (tid : Nat) (body : List Act) (h : Inv s) :
     Inv (submitNext s tid body) := by
   have hl : line (submitNext s tid body) =
       (s.executed.reverse ++ (idsOf s.tmpQ ++ idsOf s.dQ ++ idsOf s.nextQ)) ++ (s.nextAlloc + 2) :: idsOf s.inLoopQ := by
-    rw [line_def]; simp [submitNext]
+    rw [line_def]; simp [submitNext, noteNext]
   have hs : line s = (s.executed.reverse ++ (idsOf s.tmpQ ++ idsOf s.dQ ++ idsOf s.nextQ)) ++ idsOf s.inLoopQ := by
     rw [line_def]; simp
   refine inv_api h (core_submitNext h _ _ _ rfl hs (idsOf_par_in _ h.parIn) hl rfl rfl rfl) ?_ h.parIn ?_ rfl (fun e => e) rfl rfl
     rfl rfl rfl rfl rfl rfl rfl rfl rfl h.logCanc (Or.inr ?_)
-  · have := h.allocPar; simp only [submitNext]; omega
-  · simp only [submitNext]; intro t ht
+  · have := h.allocPar; simp only [submitNext, noteNext]; omega
+  · simp only [submitNext, noteNext]; intro t ht
     rcases List.mem_append.1 ht with ht | ht
     · exact h.parNext t ht
     · have := h.allocPar; simp at ht; subst ht; simp; omega
   · intro id hid
-    simp only [submitNext, idsOf_append, List.mem_append] at hid ⊢
+    simp only [submitNext, noteNext, idsOf_append, List.mem_append] at hid ⊢
     rcases hid with hid | hid
     · exact Or.inl (Or.inl hid)
     · exact Or.inr hid
@@ -152,16 +165,23 @@ theorem exit_inv (s : State) (h : Inv s) : Inv { s with keepRunning := false } :
     rfl rfl rfl rfl rfl rfl h.logCanc (Or.inr fun _ hid => hid)
 
 theorem flags_inv (s : State) (k e : Bool) (h : Inv s) : Inv { s with keepRunning := k, exitTimer := e } :=
-  { count := h.count, allocPar := h.allocPar, parIn := h.parIn, parNext := h.parNext, order := h.order,
-    shapeQuiet := h.shapeQuiet, shapeBatch := h.shapeBatch, shapeDrain := h.shapeDrain, fdRun := h.fdRun,
-    driver := h.driver, execs := h.execs, logExec := h.logExec, logCanc := h.logCanc, exitPend := h.exitPend }
+  inv_congr h rfl rfl rfl rfl rfl rfl rfl rfl rfl rfl rfl rfl rfl rfl rfl rfl
 
 theorem dropExitTimer_inv (s : State) (tid : Nat) (h : Inv s) : Inv (dropExitTimer s tid) := by
   unfold dropExitTimer
   split
-  · have := flags_inv _ (submitNext s tid []).keepRunning false (submitNext_inv s tid [] h)
-    exact this
+  · exact inv_congr (submitNext_inv s tid [] h) rfl rfl rfl rfl rfl rfl rfl rfl rfl rfl rfl rfl rfl rfl rfl rfl
   · exact h
+
+theorem dropExitTimer_frame (s : State) (tid : Nat) :
+    (dropExitTimer s tid).phase = s.phase ∧ (dropExitTimer s tid).tmpQ = s.tmpQ ∧ (dropExitTimer s tid).cur = s.cur ∧
+    (dropExitTimer s tid).dQ = s.dQ ∧ (dropExitTimer s tid).executed = s.executed ∧
+    (dropExitTimer s tid).exitPending = s.exitPending ∧ (dropExitTimer s tid).destroying = s.destroying ∧
+    (dropExitTimer s tid).efd = s.efd ∧ (dropExitTimer s tid).hasCommit = s.hasCommit ∧ (dropExitTimer s tid).wrLost = s.wrLost ∧
+    (dropExitTimer s tid).inLoopQ = s.inLoopQ ∧ (dropExitTimer s tid).loopTid = s.loopTid ∧
+    ((dropExitTimer s tid).timerDue = true → s.timerDue = true) := by
+  unfold dropExitTimer
+  split <;> simp [submitNext, noteNext]
 
 theorem doAct_inv (cfg : Cfg) (s : State) (tid : Nat) (a : Act) (h : Inv s)
     (hnd : ¬(s.phase = .drain ∧ s.remain = 100)) : Inv (doAct cfg s tid a) := by
@@ -170,7 +190,13 @@ theorem doAct_inv (cfg : Cfg) (s : State) (tid : Nat) (a : Act) (h : Inv s)
   | next k => exact submitNext_inv s tid _ h
   | cancel id => exact cancel_inv s id h hnd
   | exit => exact flags_inv _ false (dropExitTimer s tid).exitTimer (dropExitTimer_inv s tid h)
-  | exitLater => exact flags_inv _ (dropExitTimer s tid).keepRunning true (dropExitTimer_inv s tid h)
+  | exitLater w => exact inv_congr (dropExitTimer_inv s tid h) rfl rfl rfl rfl rfl rfl rfl rfl rfl rfl rfl rfl rfl rfl rfl rfl
+  | run k =>
+    simp only [doAct]
+    split
+    · exact submitInLoop_inv s tid _ h
+    · exact submitNext_inv s tid _ h
+  | nestedRun => exact h
   | throw =>
     exact { count := h.count, allocPar := h.allocPar, parIn := h.parIn, parNext := h.parNext, order := h.order,
             shapeQuiet := fun hp => ⟨(h.shapeQuiet hp).1, rfl, (h.shapeQuiet hp).2.2⟩,
@@ -181,63 +207,69 @@ theorem doAct_inv (cfg : Cfg) (s : State) (tid : Nat) (a : Act) (h : Inv s)
 
 /-! ### the wake-up invariant across API calls -/
 
+/-- transfer across a change that leaves the wake-up variables alone -/
+theorem wake_congr {s s' : State} (hw : WakeInv s) (e1 : s'.efd = s.efd) (e2 : s'.hasCommit = s.hasCommit)
+    (e3 : s'.wrLost = s.wrLost) (e4 : s'.inLoopQ ≠ [] → s.inLoopQ ≠ []) : WakeInv s' :=
+  ⟨by rw [e1, e2, e3]; exact hw.counter, by rw [e1, e2]; exact hw.closed, by rw [e1, e2]; exact fun a b => hw.armed a (e4 b)⟩
+
+/-- `commitRunRequest` with an eventfd in place establishes the whole invariant -/
+theorem commit_wake (s : State)
+    (hc : ∀ n, s.efd = some n → s.hasCommit = true → s.wrLost = false → 0 < n)
+    (hsome : s.efd.isSome = true) : WakeInv (commit s) ∧ (commit s).hasCommit = true := by
+  obtain ⟨m, hm⟩ := Option.isSome_iff_exists.1 hsome
+  unfold commit
+  split
+  · rename_i hcm
+    exact ⟨⟨hc, fun hn => (by rw [hm] at hn; cases hn), fun _ _ => hcm⟩, hcm⟩
+  · split
+    · refine ⟨⟨?_, ?_, ?_⟩, rfl⟩
+      · intro n _ _ hl; simp at hl
+      · intro hn; simp [hm] at hn
+      · intro _ _; rfl
+    · refine ⟨⟨?_, ?_, ?_⟩, rfl⟩
+      · intro n hn _ _; simp [hm] at hn; omega
+      · intro hn; simp [hm] at hn
+      · intro _ _; rfl
+
+theorem commitIf_wake (s0 s : State) (hw : WakeInv s0) (e1 : s.efd = s0.efd) (e2 : s.hasCommit = s0.hasCommit)
+    (e3 : s.wrLost = s0.wrLost) : WakeInv (if s.efd.isSome then commit s else s) := by
+  have hc : ∀ n, s.efd = some n → s.hasCommit = true → s.wrLost = false → 0 < n := by rw [e1, e2, e3]; exact hw.counter
+  have hcl : s.efd = none → s.hasCommit = false := by rw [e1, e2]; exact hw.closed
+  split
+  · rename_i hsome
+    exact (commit_wake _ hc hsome).1
+  · rename_i hsome
+    simp only [Bool.not_eq_true, Option.isSome_eq_false_iff, Option.isNone_iff_eq_none] at hsome
+    refine ⟨hc, hcl, ?_⟩
+    intro hn; simp [hsome] at hn
+
 theorem submitInLoop_wake (s : State) (tid : Nat) (body : List Act) (hw : WakeInv s) :
     WakeInv (submitInLoop s tid body) := by
   simp only [submitInLoop]
-  split
-  · rename_i hsome
-    unfold commit
-    split
-    · rename_i hc
-      simp only at hc
-      exact ⟨hw.counter, hw.closed, fun _ _ => hc⟩
-    · rename_i hc
-      simp only [Bool.not_eq_true] at hc
-      refine ⟨?_, ?_, ?_⟩
-      · intro n hn
-        cases he : s.efd with
-        | none => simp [he] at hsome
-        | some m =>
-          have := hw.counter m he
-          simp [hc] at this
-          simp [he, this] at hn ⊢
-          omega
-      · intro hn
-        cases he : s.efd with
-        | none => simp [he] at hsome
-        | some m => simp [he] at hn
-      · intro _ _; rfl
-  · rename_i hsome
-    simp only [Bool.not_eq_true, Option.isSome_eq_false_iff, Option.isNone_iff_eq_none] at hsome
-    refine ⟨?_, hw.closed, ?_⟩
-    · intro n hn; simp [hsome] at hn
-    · intro hn; simp [hsome] at hn
+  have key := commitIf_wake s { s with inAlloc := s.inAlloc + 2, inLoopQ := s.inLoopQ ++ [{ id := s.inAlloc + 2, owner := tid, body := body }], log := .sub (s.inAlloc + 2) tid false :: s.log } hw rfl rfl rfl
+  exact wake_congr key rfl rfl rfl (fun e => e)
 
 theorem submitNext_wake (s : State) (tid : Nat) (body : List Act) (hw : WakeInv s) :
-    WakeInv (submitNext s tid body) := ⟨hw.counter, hw.closed, hw.armed⟩
+    WakeInv (submitNext s tid body) := wake_congr hw rfl rfl rfl (fun e => e)
 
 theorem cancel_wake (s : State) (id : Nat) (hw : WakeInv s) : WakeInv (cancel s id) := by
-  have key : (cancel s id).efd = s.efd ∧ (cancel s id).hasCommit = s.hasCommit ∧
+  have key : (cancel s id).efd = s.efd ∧ (cancel s id).hasCommit = s.hasCommit ∧ (cancel s id).wrLost = s.wrLost ∧
       ((cancel s id).inLoopQ ≠ [] → s.inLoopQ ≠ []) := by
     simp only [cancel]
     split
-    · exact ⟨rfl, rfl, fun e => e⟩
+    · exact ⟨rfl, rfl, rfl, fun e => e⟩
     · split
-      · exact ⟨rfl, rfl, fun e => e⟩
+      · exact ⟨rfl, rfl, rfl, fun e => e⟩
       · split
-        · exact ⟨rfl, rfl, fun e => e⟩
-        · exact ⟨rfl, rfl, removeId_eq_nil_of_nil id⟩
-  obtain ⟨k1, k2, k3⟩ := key
-  refine ⟨?_, ?_, ?_⟩
-  · rw [k1, k2]; exact hw.counter
-  · rw [k1, k2]; exact hw.closed
-  · rw [k1, k2]; exact fun a b => hw.armed a (k3 b)
+        · exact ⟨rfl, rfl, rfl, fun e => e⟩
+        · exact ⟨rfl, rfl, rfl, removeId_eq_nil_of_nil id⟩
+  obtain ⟨k1, k2, k3, k4⟩ := key
+  exact wake_congr hw k1 k2 k3 k4
 
 theorem dropExitTimer_wake (s : State) (tid : Nat) (hw : WakeInv s) : WakeInv (dropExitTimer s tid) := by
   unfold dropExitTimer
   split
-  · have := submitNext_wake s tid [] hw
-    exact ⟨this.counter, this.closed, this.armed⟩
+  · exact wake_congr (submitNext_wake s tid [] hw) rfl rfl rfl (fun e => e)
   · exact hw
 
 theorem doAct_wake (cfg : Cfg) (s : State) (tid : Nat) (a : Act) (hw : WakeInv s) : WakeInv (doAct cfg s tid a) := by
@@ -245,8 +277,14 @@ theorem doAct_wake (cfg : Cfg) (s : State) (tid : Nat) (a : Act) (hw : WakeInv s
   | inLoop k => exact submitInLoop_wake s tid _ hw
   | next k => exact submitNext_wake s tid _ hw
   | cancel id => exact cancel_wake s id hw
-  | exit => have := dropExitTimer_wake s tid hw; exact ⟨this.counter, this.closed, this.armed⟩
-  | exitLater => have := dropExitTimer_wake s tid hw; exact ⟨this.counter, this.closed, this.armed⟩
-  | throw => exact ⟨hw.counter, hw.closed, hw.armed⟩
+  | exit => exact wake_congr (dropExitTimer_wake s tid hw) rfl rfl rfl (fun e => e)
+  | exitLater w => exact wake_congr (dropExitTimer_wake s tid hw) rfl rfl rfl (fun e => e)
+  | throw => exact wake_congr hw rfl rfl rfl (fun e => e)
+  | run k =>
+    simp only [doAct]
+    split
+    · exact submitInLoop_wake s tid _ hw
+    · exact submitNext_wake s tid _ hw
+  | nestedRun => exact hw
 
 end Tbox.C01
